@@ -41,20 +41,25 @@ CLAIMED = {
             "Reals; same bounds as C06; reference convolution shared with C04.", "4/C11"),
     "C12": (JX, "enumerated construction histories executed inside the traced function; symbolic execution of the real MultiImage operators; z3 (QF_LRA/NRA); __eq__ by scripted-allclose path exploration + z3 propositional equivalence",
             "For each enumerated pair of construction histories and insertion orders z3 proves (a op b)[t] = a[t] op b[t] for ALL block values and scalars; "
-            "mixed type sets are rejected; __eq__'s truth table over all allclose outcomes equals the type-wise conjunction.",
+            "every ordered pair of distinct type sets over a 3-type universe is rejected by + and - and unequal under ==; __eq__'s truth table over all allclose outcomes equals the type-wise conjunction.",
             "Reals; tiny blocks (N=2); histories of length <=2 sampled; allclose itself is stubbed for __eq__.", "4/C12"),
-    "C13": (JX, "symbolic execution of the real re-layout methods composed into round trips; z3 (QF_LRA) identity per block; metadata read off the traced objects",
+    "C13": (JX, "symbolic execution of the real re-layout methods composed into round trips; z3 (QF_LRA) identity per block; metadata read off the traced objects; "
+            "(ml.save/ml.load only: concrete bit-pattern round trips through the real file I/O, recorded as structural facts, not solver-decided)",
             "For each enumerated signature/order/leading-axis layout and every applicable inverse pair (and seeded chains of <=3) z3 proves "
             "roundtrip(x) = x for ALL entries; to_scalar_multi_image equals its documented channel layout.",
-            "save/load (file I/O) is outside and NOT claimed; bounded signatures (k<=3, channels<=4), 0-3 leading axes, d<=3.", "4/C13"),
+            "save/load (file I/O) cannot be encoded: that sentence is NOT solver-decided, the check only records concrete facts for it (every array leaf filled with distinct "
+            "float32 bit patterns incl. -0.0/denormal/inf/NaN payload and every python-scalar leaf come back identical, outputs bit-identical; 4-7 models); bounded signatures (k<=3, channels<=4), 0-3 leading axes, d<=3.", "4/C13"),
     "C14": (JX, "symbolic execution of the batched MultiImage methods / jax.vmap(layer) vs. the single-image method / un-batched layer executed separately; z3 per entry",
             "For each enumerated leading-axis layout z3 proves op(X)[b,c] = single_image_op(X[b,c]) for ALL entries, and vmap(layer)(X)[b] = layer(X[b]) "
-            "plus direct independence from the other batch entries, for ConvContract, VN nonlinearity, MaxNormPool, scalar GroupNorm, ConvBlock, a tiny ResNet.",
+            "plus direct independence from the other batch entries, for ConvContract, VN nonlinearity, MaxNormPool, scalar GroupNorm, ConvBlock, a tiny ResNet; "
+            "per-entry losses equal the loss of the entry alone and the reduced losses their mean (all three losses).",
             "Reals; fixed seeded layer parameters; bounded shapes; large intermediate polynomials are let-abstracted (def atoms, refined on demand).", "4/C14"),
-    "C15": (JX + "+" + XH, "CrossHair on the real time_series_idxs (symbolic T,p,f,dt); symbolic execution of the jaxprs of times_series_to_multi_images / batch_time_series, z3 (QF_LRA) per configuration",
+    "C15": (JX + "+" + XH, "CrossHair on the real time_series_idxs (symbolic T,p,f,dt; recorded fallback: exhaustive enumeration of the same bounded domain); symbolic execution of the jaxprs of times_series_to_multi_images / batch_time_series, z3 (QF_LRA) per configuration",
             "CrossHair confirms the index arithmetic over all paths for symbolic (T,p,f,dt) within bounds; for each enumerated (T,p,f,dt,s,downsample, "
             "constants, trajectories) z3 proves every input/target block equals the specified gather for ALL field values.",
-            "CrossHair: jnp replaced by a lazy shim (validated against jnp); p,f<=6, dt<=4, T<=48.  JXSMT part: T<=8 (12), sampled cells.", "4/C15"),
+            "CrossHair: jnp/np of ginjax.data replaced by a lazy integer-array shim (validated against the real function on every run); p,f<=6, dt<=4, T<=48; if the shim "
+            "does not fit the current source or CrossHair is inconclusive, the same bounded domain is decided by exhaustive enumeration of the real function and the "
+            "evidence notes say so.  JXSMT part: T<=8 (12), sampled cells.", "4/C15"),
     "C16": (JX, "symbolic execution of the jaxprs of autoregressive_step / autoregressive_map with the model as an uninterpreted function; z3 (QF_UFLRA)",
             "For each enumerated (signature, n, past) z3 proves the rollout equals n explicit applications with the sliding-window update for EVERY model "
             "(uninterpreted function of the whole input) and all inputs.",
